@@ -108,6 +108,21 @@ func (p *Paragraph) Update(other Paragraph) Paragraph {
 	return ret
 }
 
+// without returns a copy of the Paragraph that lacks the given key.
+func (p Paragraph) without(key string) Paragraph {
+	if _, found := p.Values[key]; !found {
+		return p
+	}
+	ret := Paragraph{Order: []string{}, Values: map[string]string{}}
+	for _, el := range p.Order {
+		if el != key {
+			ret.Order = append(ret.Order, el)
+			ret.Values[el] = p.Values[el]
+		}
+	}
+	return ret
+}
+
 // }}}
 
 // ParagraphReader {{{
